@@ -22,6 +22,7 @@ os.environ.setdefault("INFOCF_LOGLEVEL", "ERROR")
 from sim import seams  # noqa: E402
 
 seams.install_time_seam()
+seams.install_timer_seam()
 
 import warnings  # noqa: E402
 
